@@ -224,8 +224,47 @@ impl Op {
     }
 }
 
+thread_local! {
+    /// How `mk` builds the next operands: 0 = try_from, 1 = a Clone of that (on the heap back-end the copy's allocation is
+    /// exactly as long as its contents, unlike every vector the constructors make), 2 = new + try_extend in two pieces.
+    static ROUTE: std::cell::Cell<u8> = std::cell::Cell::new(0);
+    /// Smallest capacity among the operands built for the current operation (the "available capacity" of the property).
+    static MIN_CAP: std::cell::Cell<usize> = std::cell::Cell::new(usize::MAX);
+    /// Set when a vector was seen with len > capacity after an operation.
+    static BROKEN: std::cell::RefCell<Option<String>> = std::cell::RefCell::new(None);
+}
+
+fn route_of(op: &Op) -> u8 {
+    let mut h = Hasher64::new();
+    h.bytes(op.descr().as_bytes());
+    match h.finish() % 8 {
+        0 | 1 => 1,
+        2 => 2,
+        _ => 0,
+    }
+}
+
 fn mk(x: &[u64]) -> VecType {
-    VecType::try_from(x).expect("operand exceeds the capacity: generator error")
+    let v = match ROUTE.with(|r| r.get()) {
+        1 => VecType::try_from(x).expect("operand exceeds the capacity: generator error").clone(),
+        2 => {
+            let mut v = VecType::new();
+            let k = x.len() / 2;
+            v.try_extend(&x[..k]).expect("operand exceeds the capacity: generator error");
+            v.try_extend(&x[k..]).expect("operand exceeds the capacity: generator error");
+            v
+        }
+        _ => VecType::try_from(x).expect("operand exceeds the capacity: generator error"),
+    };
+    MIN_CAP.with(|c| c.set(c.get().min(v.capacity())));
+    v
+}
+
+/// Structural invariant after an operation: the length never exceeds the capacity of the storage.
+fn post_vec(v: &VecType) {
+    if v.len() > v.capacity() {
+        BROKEN.with(|b| *b.borrow_mut() = Some(format!("len {} > capacity {}", v.len(), v.capacity())));
+    }
 }
 
 /// What the natural-number semantics demand of an in-place operation on `x0`.
@@ -262,7 +301,11 @@ fn check_inplace(ctx: &mut Ctx, op: &Op, want: Want, got: Got, _panic_is_failure
             }
         }
         Got::Vec(None) => {
-            if fits {
+            if fits && HEAP && want.len > MIN_CAP.with(|c| c.get()) {
+                // heap back-end, operand with a tight allocation (a Clone): whole-limb shifts are bounded by Vec::capacity()
+                // and report failure - that is "reports failure when the result does not fit the available capacity"
+                ctx.rep.count("heap.tight_allocation_reported_none");
+            } else if fits {
                 ctx.violation("spurious-failure", &op.descr(), "None", &format!("Some({} limbs)", want.len));
             } else {
                 ctx.rep.count("overflow.reported_none");
@@ -290,6 +333,18 @@ fn check_inplace(ctx: &mut Ctx, op: &Op, want: Want, got: Got, _panic_is_failure
 }
 
 fn run_op(ctx: &mut Ctx, op: &Op) {
+    let route = route_of(op);
+    ROUTE.with(|r| r.set(route));
+    MIN_CAP.with(|c| c.set(usize::MAX));
+    ctx.rep.count(["operands.by_try_from", "operands.by_clone", "operands.by_new_extend"][route as usize]);
+    run_op_inner(ctx, op);
+    ROUTE.with(|r| r.set(0));
+    if let Some(msg) = BROKEN.with(|b| b.borrow_mut().take()) {
+        ctx.violation("length-exceeds-capacity", &format!("{} (operands built by route {})", op.descr(), route), &msg, "len <= capacity");
+    }
+}
+
+fn run_op_inner(ctx: &mut Ctx, op: &Op) {
     ctx.rep.evals += 1;
     ctx.rep.count(&format!("op.{}", op.name()));
     let cap = if HEAP { usize::MAX } else { CAP };
@@ -297,6 +352,7 @@ fn run_op(ctx: &mut Ctx, op: &Op) {
         let r = util::catch(|| {
             let mut v = mk(x);
             let r = f(&mut v);
+            post_vec(&v);
             r.map(|_| v.to_vec())
         });
         match r {
@@ -356,6 +412,7 @@ fn run_op(ctx: &mut Ctx, op: &Op) {
                 let mut a = Bigint { data: mk(x) };
                 let b = Bigint { data: mk(y) };
                 a *= &b;
+                post_vec(&a.data);
                 a.data.to_vec()
             });
             let got = match r {
@@ -387,6 +444,7 @@ fn run_op(ctx: &mut Ctx, op: &Op) {
             let r = util::catch(|| {
                 let mut a = Bigint { data: mk(x) };
                 let r = a.pow(*base, *e);
+                post_vec(&a.data);
                 r.map(|_| a.data.to_vec())
             });
             let got = match r {
@@ -584,6 +642,7 @@ fn check_inplace_cap(ctx: &mut Ctx, op: &Op, want: Want, got: Got) {
 /// fold what it returned into a hash; the runner compares the hash with a native run of the
 /// same seed (differential), while the interpreter watches the memory accesses.
 fn exec_lean(op: &Op) -> u64 {
+    ROUTE.with(|r| r.set(route_of(op)));
     let mut h = Hasher64::new();
     let fold = |h: &mut Hasher64, r: Option<Vec<u64>>| match r {
         None => {
@@ -864,17 +923,23 @@ fn history(ctx: &mut Ctx, rng: &Rng, nops: usize, max_heap_len: usize) {
                 2 => {
                     // extend: sometimes exactly to the capacity, sometimes one beyond
                     let room = CAP.saturating_sub(len);
-                    let k = match rng.below(5) {
+                    let mut k = match rng.below(5) {
                         0 => room,
                         1 => room + 1,
                         2 => 0,
                         _ => rng.range(0, 12) as usize,
                     };
-                    if len + k > soft_cap {
+                    if !HEAP && rng.chance(1, 150) {
+                        // a slice far longer than the vector can hold, with a length that looks small modulo 2^8 / 2^16
+                        k = (1usize << *rng.pick(&[8u32, 16, 16])) * rng.range(1, 3) as usize + rng.range(0, room as i64 + 2) as usize;
+                        bump("extend.absurd_request".into());
+                    }
+                    if len + k > soft_cap && (HEAP || k <= 255) {
                         continue;
                     }
-                    let ext: Vec<u64> = (0..k).map(|_| small_word(rng)).collect();
-                    let r = x.try_extend(&ext.iter().map(|&v| v as Limb).collect::<Vec<Limb>>());
+                    // (an absurdly long slice is all zeros: cheap to build, also under the interpreter)
+                    let ext: Vec<u64> = if k > 255 { vec![0u64; k] } else { (0..k).map(|_| small_word(rng)).collect() };
+                    let r = if k > 255 { x.try_extend(&vec![0 as Limb; k]) } else { x.try_extend(&ext.iter().map(|&v| v as Limb).collect::<Vec<Limb>>()) };
                     let ok = len + k <= m.cap;
                     if ok {
                         m.v.extend_from_slice(&ext);
@@ -886,7 +951,7 @@ fn history(ctx: &mut Ctx, rng: &Rng, nops: usize, max_heap_len: usize) {
                     }
                 }
                 3 => {
-                    let target = match rng.below(6) {
+                    let mut target = match rng.below(6) {
                         0 => CAP,
                         1 => CAP + 1,
                         2 => 0,
@@ -894,7 +959,14 @@ fn history(ctx: &mut Ctx, rng: &Rng, nops: usize, max_heap_len: usize) {
                         4 => len.saturating_sub(rng.range(1, 5) as usize),
                         _ => rng.range(0, (CAP + 2) as i64) as usize,
                     };
-                    if target > soft_cap {
+                    if !HEAP && rng.chance(1, 6) {
+                        // absurd requests (the fixed-capacity vector must refuse them and change nothing): lengths that look
+                        // small after a narrowing cast - old length + k * 2^p + r with r within / just beyond the room left -,
+                        // powers of two +- r, and the top of the usize range
+                        target = huge_len(rng, len);
+                        bump("resize.absurd_request".into());
+                    }
+                    if target > soft_cap && (HEAP || target <= CAP + 6) {
                         continue;
                     }
                     let val = small_word(rng);
@@ -1013,6 +1085,12 @@ fn history(ctx: &mut Ctx, rng: &Rng, nops: usize, max_heap_len: usize) {
                     }
                     trace.push("clone==".into());
                     bump("clone.compare".into());
+                    if rng.chance(1, 2) {
+                        // carry on with the copy (on the heap back-end its allocation is exactly as long as its contents)
+                        x = y;
+                        trace.push("continue-on-clone".into());
+                        bump("clone.continued_on_copy".into());
+                    }
                 }
                 9 => {
                     // ordering against another vector (both normalized -> numeric order)
@@ -1114,6 +1192,20 @@ fn history(ctx: &mut Ctx, rng: &Rng, nops: usize, max_heap_len: usize) {
         }
     }
     ctx.rep.sample(|| json_str(&trace.iter().take(40).cloned().collect::<Vec<_>>().join(" ")));
+}
+
+/// An absurd length request: looks small after a narrowing cast to 8 / 16 / 32 bits, or sits at a power of two or at the top
+/// of the usize range.
+fn huge_len(rng: &Rng, len: usize) -> usize {
+    let room = CAP.saturating_sub(len);
+    let r = rng.range(0, room as i64 + 2) as usize;
+    match rng.below(6) {
+        0 | 1 => len.wrapping_add((1usize << *rng.pick(&[8u32, 16, 16, 32])).wrapping_mul(rng.range(1, 4) as usize)).wrapping_add(r),
+        2 => (1usize << *rng.pick(&[8u32, 16, 16, 32, 63])).wrapping_add(r),
+        3 => (1usize << *rng.pick(&[8u32, 16, 16, 32, 63])).wrapping_sub(r),
+        4 => usize::MAX - r,
+        _ => (rng.next() as usize) | (1 << 16),
+    }
 }
 
 /// Small-scope exhaustive: every sequence of `depth` operations over a 13-letter alphabet of capacity-relevant
